@@ -78,8 +78,19 @@ def gen(rng, tier, idx):
                 p.op(t, "flush")
             elif a == "attr":
                 k = "app.t%d.k%d" % (t, r.below(4))
-                v = "v%d-%d" % (t, r.below(1000))
-                p.op(t, "attr_set_str", k, v)
+                ty = r.weighted([("str", 55), ("double", 15), ("boolean", 15), ("json", 15)])
+                if ty == "str":
+                    v = "v%d-%d" % (t, r.below(1000))
+                    p.op(t, "attr_set_str", k, v)
+                elif ty == "double":
+                    v = t * 1000 + r.below(1000) + 0.5
+                    p.op(t, "attr_set_double", k, repr(v))
+                elif ty == "boolean":
+                    v = r.chance(50)
+                    p.op(t, "attr_set_boolean", k, 1 if v else 0)
+                else:
+                    v = {"thread": t, "list": [t, r.below(100)], "s": "x%d" % t}
+                    p.op(t, "attr_set_json", k, json.dumps(v, separators=(",", ":")))
                 exp[t]["attrs"][k] = v
             elif a == "attrflush":
                 p.op(t, "attr_flush")
